@@ -146,7 +146,8 @@ def _order_wf(i):
     ik = z3.Const("bv_ik", S)
     return z3.And(z3.ForAll([o, ik], z3.Implies(f["ihas"](i, o, ik), f["ohas"](i, o))),
                   z3.ForAll([o], z3.Implies(f["ohas"](i, o), z3.And(0 <= f["opos"](i, o), f["opos"](i, o) < z3.Length(oo), oo[f["opos"](i, o)] == o))),
-                  z3.ForAll([q], z3.Implies(z3.And(0 <= q, q < z3.Length(oo)), z3.And(f["ohas"](i, oo[q]), f["opos"](i, oo[q]) == q))))
+                  # (that every listed key is a key of the dict - ohas(i, oo[q]) - is a typing invariant of ordered dicts, see ops.wf_conds)
+                  z3.ForAll([q], z3.Implies(z3.And(0 <= q, q < z3.Length(oo)), f["opos"](i, oo[q]) == q)))
 
 
 def _unchanged(c):
